@@ -8,12 +8,15 @@ level (children listed in another order than the library's own reduction
 produces).  Bitwise equality at every shared level; the removed levels of A
 must be the ancestors (in the stored tree) of the finer assignment.
 """
+import itertools
+
 from mc import domains, mapcheck, scenario
 
 PROPERTY = 'C17'
 LEVEL = 'exploration'
 RULE = ("every tree shape with 2..L levels x every droppable level (top, "
-        "middle, last-but-one) and flatten x marker tables {full incl. "
+        "middle, last-but-one), flatten, and flatten together with each "
+        "droppable level x marker tables {full incl. "
         "entries for removed parents, pruned of removed parents, fallback "
         "(missing / empty parents)} x (factor, iterations) in "
         "{(1,1),(0.5,3)} x min_markers {1,10}; plus drop of a level name "
@@ -75,7 +78,12 @@ def evaluate(case, scratch):
                 spec_b = dict(base_spec, marker_mode=mmode, reduce=red,
                               **vextra)
                 B = scenario.build(spec_b, scratch.new_dir('B') / 'in')
-                for factor, it in ((1.0, 1), (0.5, 3)):
+                # flattening combined with a dropped level is still
+                # flattening: same expectation
+                also_drop = [None] + (list(range(L - 1))
+                                      if kind == 'flatten' else [])
+                for (factor, it), extra_drop in itertools.product(
+                        ((1.0, 1), (0.5, 3)), also_drop):
                     for mmk in (1, 10):
                         if kind == 'flatten' and mmk == 10:
                             continue
@@ -86,6 +94,8 @@ def evaluate(case, scratch):
                             cfg_a['drop_level'] = idx
                         else:
                             cfg_a['flatten'] = True
+                            if extra_drop is not None:
+                                cfg_a['drop_level'] = extra_drop
                         ra = scenario.run_mapping(A, cfg_a,
                                                   scratch.new_dir('ra'))
                         rb = scenario.run_mapping(B, cfg,
@@ -94,7 +104,10 @@ def evaluate(case, scratch):
                         desc = (f'{shape_s} scheme={case["scheme"]} '
                                 f'markers={mmode}/{vname} {kind}='
                                 f'{full_h[idx] if idx is not None else ""} '
-                                f'factor={factor} it={it} min_markers={mmk}')
+                                f'factor={factor} it={it} min_markers={mmk}'
+                                + (f' together with drop_level='
+                                   f'{full_h[extra_drop]}'
+                                   if extra_drop is not None else ''))
                         if _ok(ra) != _ok(rb):
                             violations.append({
                                 'key': 'one-run-failed',
